@@ -14,4 +14,4 @@ def run(ctx, rep):
     def s14_15(i, r, o):
         ss = skel.s14_skipset(i, r)
         skel.s15_eager(i, r, ss)
-    common.s_rules(ctx, rep, [s14_15, lambda i, r, o: skel.s16_peek(i, r), lambda i, r, o: skel.s17_ends(i, r)])
+    common.s_rules(ctx, rep, [s14_15, lambda i, r, o: skel.s16_peek(i, r), lambda i, r, o: skel.s17_ends(i, r), lambda i, r, o: skel.s19_close_bump(i, r)])
